@@ -138,6 +138,15 @@ def write_replay(pid, sig, item):
     return path
 
 
+def bounds_text(mod, tier):
+    """The hand-written BOUNDS string plus, where the module has them, the exact family lists that were enumerated."""
+    txt = getattr(mod, "BOUNDS", {}).get(tier, "")
+    fams = getattr(mod, "QUICK" if tier == "quick" else "THOROUGH", None)
+    if fams:
+        txt += " || exact family list enumerated: " + "; ".join(f if isinstance(f, str) else "(" + ", ".join(map(str, f)) + ")" for f in fams)
+    return txt
+
+
 def main(argv):
     if len(argv) < 2:
         print(__doc__)
@@ -230,7 +239,7 @@ def main(argv):
         "rule": mod.RULE,
         "samples": samples,
         "exhaustive": True,
-        "bounds": getattr(mod, "BOUNDS", {}).get(tier, ""),
+        "bounds": bounds_text(mod, tier),
         "shards": len(descs),
         "workers": min(nproc, max(1, len(descs))),
         "determinism_selfcheck": {"shard": chk, "identical_digest": True},
